@@ -227,6 +227,52 @@ def make_cluster_harness(cfg, tw):
     return harness
 
 
+def make_e2e_harness(cfg, tw):
+    """the real fit() end to end (arc creation for every candidate k, pdf, validation clusterings, final
+    clustering) on a symbolic distance table: histories of several clusterings on one graph are covered"""
+    n, nv, model, max_k = cfg["n"], cfg.get("nv", 0), cfg["model"], cfg["max_k"]
+    labels, vlabels = cfg["labels"], cfg.get("vlabels", [])
+    knn_mod = tw.mod("opfython.models.knn_supervised")
+    uns_mod = tw.mod("opfython.models.unsupervised")
+    N = n + nv
+
+    def harness():
+        eng = core.engine()
+        symmath.LEVEL = "full"
+        D = models.sym_matrix(eng, N, N, symmetric=cfg.get("symmetric", True), diag="zero", name="d")
+        off = [to_real(D[i][j]) for i in range(N) for j in range(N) if i != j]
+        eng.assume(z3.And([z3.And(t > rv(0.001), t <= 1000) for t in off]))
+        X = symnp.SArr.from_list([[float(i)] for i in range(n)])
+        Y = symnp.SArr.from_list(list(labels), dtype="i")
+        if model == "knn":
+            opf = knn_mod.KNNSupervisedOPF(max_k=max_k)
+            opf.distance_fn = models.table_metric(D)
+            Xv = symnp.SArr.from_list([[float(n + i)] for i in range(nv)])
+            Yv = symnp.SArr.from_list(list(vlabels), dtype="i")
+            opf.fit(X, Y, Xv, Yv)
+        else:
+            opf = uns_mod.UnsupervisedOPF(min_k=1, max_k=max_k)
+            opf.distance_fn = models.table_metric(D)
+            opf.fit(X, Y)
+            if cfg.get("propagate"):
+                opf.propagate_labels()
+        g = opf.subgraph
+        return dict(opf=opf, g=g, D=D, dens=[nd.density for nd in g.nodes], labels=list(labels),
+                    adjs=[[int(a) for a in nd.adjacency] for nd in g.nodes])
+    return harness
+
+
+def e2e_payload(eng, m, cfg, out):
+    Dv = [[common.fraction_to_float(x) for x in r] for r in models.eval_matrix(eng, m, out["D"])]
+    return dict(kind="knn_e2e", cfg=cfg, D=Dv)
+
+
+def e2e_post(eng, cfg, out, info):
+    g = out["g"]
+    c2 = dict(cfg, n=cfg["n"], k=g.best_k, force=(cfg["model"] == "knn"), e2e=True)
+    cluster_post(eng, c2, out, info)
+
+
 def cluster_post(eng, cfg, out, info):
     g = out["g"]
     n, k, model = cfg["n"], cfg["k"], cfg["model"]
@@ -266,7 +312,8 @@ def cluster_post(eng, cfg, out, info):
             npl = nodes[p].n_plateaus if model == "uns" else len(nodes[p].adjacency)
             lim = (npl + k) if model == "uns" else len(nodes[p].adjacency)
             adjp = [int(a) for a in nodes[p].adjacency[:lim]]
-            eng.check("sample-was-neighbour-of-its-predecessor[%d]" % i, i in adjp, info)
+            if not (cfg.get("e2e") and model == "knn"):      # KNN fit destroys the arcs before returning
+                eng.check("sample-was-neighbour-of-its-predecessor[%d]" % i, i in adjp, info)
             eng.check("cost-is-min(cost(pred),density)[%d]" % i, c == zmin(to_real(nodes[p].cost), dens[i]), info)
             eng.check("cost-above-density-minus-1[%d]" % i, c > dens[i] - 1, info)
         eng.check("density-below-root's-plus-1[%d]" % i, dens[i] < dens[r] + 1, info)
@@ -275,6 +322,10 @@ def cluster_post(eng, cfg, out, info):
         ids = sorted(nodes[r].cluster_label for r in rootset)
         eng.check("root-ids-are-0..n_clusters-1", ids == list(range(len(rootset))), info)
     order = list(g.idx_nodes)
+    if cfg.get("e2e"):
+        # the conquest order list accumulates over the candidate clusterings of fit(); the statement is about
+        # the final one: its n entries are a permutation
+        order = order[-n:]
     eng.check("every-sample-conquered-once", sorted(order) == list(range(n)), info)
 
 
@@ -577,6 +628,7 @@ KINDS = {
     "cluster": (make_cluster_harness, cluster_post, cluster_payload),
     "predict": (make_predict_harness, predict_post, predict_payload),
     "select": (make_select_harness, select_post, select_payload),
+    "e2e": (make_e2e_harness, e2e_post, e2e_payload),
 }
 
 
